@@ -13,7 +13,7 @@ PROPERTIES = ['C01_Transitions', 'C01_ParamsFrozen', 'C01_CompletedFrozen', 'C01
               'C10_Isolation', 'C10_LWW', 'C11_Optimal']
 
 BASE = dict(Studies={'s1'}, Clients={'w1', 'w2'}, MaxId=3, Params={'p1', 'p2'}, Meas={'m1', 'm2'}, Cells={'c1'},
-            Vals={'v1', 'v2'}, Recycle='never', MaxCount=2, MaxDeliver=3, MaxDepth=3, Cfgs={'max1'}, AlgoMeta=False,
+            Vals={'v1', 'v2'}, Recycle='never', MaxCount=2, MaxDeliver=3, MaxDepth=3, Cfgs={'max1'}, AlgoMeta=False, EsAlso=False,
             Kinds=set(ALL_KINDS))
 
 
